@@ -26,11 +26,29 @@ def button_designee(n, layout, first_round):
 
 
 def door_opener(cards, razz):
-    """cards: one up-card text per player (None for players without cards)."""
-    idx = [i for i, c in enumerate(cards) if c]
+    """cards: per player, one up-card text or a list of them (None/empty for players without cards).
+
+    The single lowest (stud: ace high) or highest (razz: ace low) card showing anywhere decides; suits break ties."""
+    flat = [(i, c) for i, cs in enumerate(cards) if cs for c in ([cs] if isinstance(cs, str) else cs)]
     if razz:
-        return max(idx, key=lambda i: (REG.index(cards[i][0]), SUITS.index(cards[i][1])))
-    return min(idx, key=lambda i: (STD.index(cards[i][0]), SUITS.index(cards[i][1])))
+        return max(flat, key=lambda x: (REG.index(x[1][0]), SUITS.index(x[1][1]), -x[0]))[0]
+    return min(flat, key=lambda x: (STD.index(x[1][0]), SUITS.index(x[1][1]), x[0]))[0]
+
+
+def card_opener(opening, ups):
+    """Designee of a card-based opening rule from the up-card texts per player ([] = out of the hand);
+    None when it cannot be decided (unknown cards, nobody showing)."""
+    if not any(ups) or any(c[0] == '?' or c[1] == '?' for u in ups for c in u):
+        return None
+    if opening == 'LOW_CARD':
+        return door_opener(ups, False)
+    if opening == 'HIGH_CARD':
+        return door_opener(ups, True)
+    if opening == 'HIGH_HAND':
+        return exposed_opener(ups, False)
+    if opening == 'LOW_HAND':
+        return exposed_opener(ups, True)
+    return None
 
 
 def exposed_strength(cs, razz):
